@@ -171,14 +171,21 @@ func (g *Gen) peerRequest() Msg {
 			m.Use = true
 			m.HasNom = true
 			switch g.pick(4) {
-			case 0: // stale or equal value
-				if g.peerNom > 0 {
+			case 0: // stale or equal value (sometimes far below: more than 2^23 under the last one)
+				if g.peerNom > 0x800000 && g.pick(2) == 0 {
+					m.Nom = g.peerNom - 0x800000 - uint32(g.pick(100))
+				} else if g.peerNom > 0 {
 					m.Nom = g.peerNom - uint32(g.pick(2))
 				} else {
 					m.Nom = 1
 				}
 			default:
-				g.peerNom += uint32(1 + g.pick(3))
+				// mostly the next few values; sometimes a jump of more than 2^23 (all values stay below 2^24)
+				if g.pick(5) == 0 && g.peerNom+0x900000 < 1<<24 {
+					g.peerNom += 0x900000
+				} else {
+					g.peerNom += uint32(1 + g.pick(3))
+				}
 				m.Nom = g.peerNom
 			}
 		}
